@@ -1,4 +1,5 @@
 #include "common.h"
+#include <unistd.h>
 #include <stdlib.h>
 #include <string.h>
 
@@ -112,6 +113,64 @@ void out_digest(const char *tag, const void *out, size_t n)
         if (i == n_tagsums && n_tagsums < 48) { tagsums[n_tagsums].tag = tag; tagsums[n_tagsums].sum = 0; tagsums[n_tagsums].n = 0; ++n_tagsums; }
         if (i < n_tagsums) { tagsums[i].sum += h; ++tagsums[i].n; }
     }
+}
+
+/* Caller memory that ends (or begins) where readable memory ends: n writable bytes whose last byte is the last byte
+ * before a PROT_NONE page (guard_tail) or whose first byte is the first byte after one (guard_head).  One mapping per
+ * slot, grown on demand.  A library that reads or writes one byte outside what it was given faults. */
+#include <sys/mman.h>
+static struct { uint8_t *base; size_t cap; } gslot[8];
+static uint8_t *guard_slot(int slot, size_t n)
+{
+    size_t need = (n + 4095) & ~(size_t)4095;
+    if (need < 65536) need = 65536;
+    if (slot < 0 || slot >= 8) engine_error("guard slot");
+    if (gslot[slot].cap < need) {
+        if (gslot[slot].base) munmap(gslot[slot].base, gslot[slot].cap + 8192);
+        gslot[slot].base = mmap(NULL, need + 8192, PROT_READ | PROT_WRITE, MAP_PRIVATE | MAP_ANONYMOUS, -1, 0);
+        if (gslot[slot].base == MAP_FAILED) engine_error("mmap of a guarded buffer failed");
+        mprotect(gslot[slot].base, 4096, PROT_NONE);
+        mprotect(gslot[slot].base + 4096 + need, 4096, PROT_NONE);
+        gslot[slot].cap = need;
+    }
+    return gslot[slot].base + 4096;
+}
+uint8_t *guard_tail(int slot, size_t n) { uint8_t *b = guard_slot(slot, n); return b + gslot[slot].cap - n; }
+uint8_t *guard_head(int slot, size_t n) { return guard_slot(slot, n); }
+
+/* Crash attribution for the enumerating harnesses that have no forked runner: the case about to be executed is
+ * registered (cheaply: a kind, a few integers, a pointer to the case bytes); a fatal signal inside it is reported as
+ * that case's outcome, the results so far are written and the process ends with the violation exit status.  The
+ * stand-alone replay of the case dies in the same way and so confirms it. */
+#include <signal.h>
+static struct { const char *prop, *kind; int n, v[6]; const uint8_t *buf; size_t m; int armed; } g_cg;
+void crash_case(const char *prop, const char *kind, int n, const int *v, const uint8_t *buf, size_t m)
+{
+    int i;
+    g_cg.prop = prop; g_cg.kind = kind; g_cg.n = n > 6 ? 6 : n; for (i = 0; i < g_cg.n; ++i) g_cg.v[i] = v[i];
+    g_cg.buf = buf; g_cg.m = m; g_cg.armed = 1;
+}
+void crash_case_done(void) { g_cg.armed = 0; }
+static void crash_handler(int sg)
+{
+    static char cd[900], sig[120]; size_t o; int i;
+    const char *sn = sg == SIGSEGV ? "SIGSEGV" : (sg == SIGBUS ? "SIGBUS" : (sg == SIGILL ? "SIGILL" : (sg == SIGFPE ? "SIGFPE" : "SIGABRT")));
+    if (!g_cg.armed) { signal(sg, SIG_DFL); raise(sg); return; }
+    g_cg.armed = 0;
+    o = (size_t)snprintf(cd, sizeof(cd), "%s", g_cg.kind);
+    for (i = 0; i < g_cg.n; ++i) o += (size_t)snprintf(cd + o, sizeof(cd) - o, " %d", g_cg.v[i]);
+    if (g_cg.buf && g_cg.m && g_cg.m < 200) { o += (size_t)snprintf(cd + o, sizeof(cd) - o, " "); for (i = 0; i < (int)g_cg.m; ++i) o += (size_t)snprintf(cd + o, sizeof(cd) - o, "%02x", g_cg.buf[i]); }
+    snprintf(sig, sizeof(sig), "%s/crash/%s", g_cg.prop, sn);
+    violation(sig, cd, "%s inside a library call of case '%s' (for example an access outside the memory the caller handed over)", sn, cd);
+    _exit(finish());
+}
+void crash_guard_install(void)
+{
+    static uint8_t altstack[65536];
+    stack_t ss; struct sigaction sa;
+    ss.ss_sp = altstack; ss.ss_size = sizeof(altstack); ss.ss_flags = 0; sigaltstack(&ss, NULL);
+    memset(&sa, 0, sizeof(sa)); sa.sa_handler = crash_handler; sa.sa_flags = SA_ONSTACK | SA_NODEFER;
+    sigaction(SIGSEGV, &sa, NULL); sigaction(SIGBUS, &sa, NULL); sigaction(SIGILL, &sa, NULL); sigaction(SIGFPE, &sa, NULL);
 }
 
 int tier_thorough(void) { return !strcmp(g_opts.tier, "thorough"); }
